@@ -306,8 +306,8 @@ func checkXzWriter(prop string) func(a *checkArgs, r *Result) error {
 			return nil
 		}
 		rng := rand.New(rand.NewSource(a.seed))
-		n := 900
-		big := 6
+		n := 2500
+		big := 8
 		if a.tier == "thorough" {
 			n, big = 4000, 40
 		}
@@ -369,7 +369,7 @@ func checkXzWriter(prop string) func(a *checkArgs, r *Result) error {
 			}(cs)
 		}
 		wg.Wait()
-		nscript := 400
+		nscript := 1500
 		if a.tier == "thorough" {
 			nscript = 6000
 		}
